@@ -270,10 +270,13 @@ func (m *wrappedMarshalledPhysicalFeature) Polyline() *s2.Polyline {
 	m.lock.Lock()
 	defer m.lock.Unlock()
 	if m.polyline == nil {
-		m.polyline = make(s2.Polyline, m.GeometryLen())
+		// Only remember a complete polyline: PointAt panics for a point
+		// that can't be found (eg before the index holding it is merged).
+		polyline := make(s2.Polyline, m.GeometryLen())
 		for i := 0; i < m.GeometryLen(); i++ {
-			m.polyline[i] = m.PointAt(i)
+			polyline[i] = m.PointAt(i)
 		}
+		m.polyline = polyline
 	}
 	return &m.polyline
 }
